@@ -80,12 +80,9 @@ func NewPebbleScanner(dbPath string, opts PebbleScannerOptions) (*PebbleScanner,
 	// 1. Path Sanitization
 	// We prevent the engine from initializing in sensitive system roots.
 	// This captures cases where a misconfigured env var points the DB to /etc or /root.
-	absPath, err := filepath.EvalSymlinks(dbPath)
+	absPath, err := resolveDBLocation(dbPath)
 	if err != nil {
-		if !os.IsNotExist(err) {
-			return nil, fmt.Errorf("failed to resolve absolute path for db: %w", err)
-		}
-		absPath, _ = filepath.Abs(dbPath)
+		return nil, fmt.Errorf("failed to resolve absolute path for db: %w", err)
 	}
 	// Restricts database operations to non critical directories.
 	// Initializing a database in system roots could allow an attacker
@@ -176,6 +173,41 @@ func NewPebbleScanner(dbPath string, opts PebbleScannerOptions) (*PebbleScanner,
 	}
 
 	return scanner, nil
+}
+
+// resolveDBLocation returns the absolute location a database at dbPath would actually occupy.
+// Symlinks are resolved on the longest existing prefix of the path as it is spelled, and the
+// not-yet-existing remainder is re-attached afterwards. Resolving only the full path (and
+// falling back to its lexical spelling when it does not exist yet) would let a symlinked
+// parent directory, or a relative spelling, hide the real target from the directory check.
+func resolveDBLocation(dbPath string) (string, error) {
+	p := dbPath
+	if !filepath.IsAbs(p) {
+		wd, err := os.Getwd()
+		if err != nil {
+			return "", err
+		}
+		p = wd + string(filepath.Separator) + p
+	}
+	rest := ""
+	for {
+		resolved, err := filepath.EvalSymlinks(p)
+		if err == nil {
+			return filepath.Join(resolved, rest), nil
+		}
+		if !os.IsNotExist(err) {
+			return "", err
+		}
+		// p does not exist (yet): peel off its last component and retry on the parent.
+		trimmed := strings.TrimRight(p, string(filepath.Separator))
+		i := strings.LastIndexByte(trimmed, filepath.Separator)
+		if i < 0 {
+			break
+		}
+		rest = filepath.Join(trimmed[i+1:], rest)
+		p = trimmed[:i+1]
+	}
+	return filepath.Abs(dbPath)
 }
 
 func (s *PebbleScanner) Close() error {
